@@ -22,6 +22,7 @@
 import IxaiVerif.Proofs.Storage
 import IxaiVerif.Proofs.Reservoir
 import IxaiVerif.Proofs.AlgoL
+import IxaiVerif.Proofs.AnalyticBridge
 import Mathlib.Tactic.NormNum
 
 set_option linter.unusedSectionVars false
@@ -141,5 +142,33 @@ example : Reservoir.runE 2 (fun t => ((2 : ℕ) : ℚ) / t) 2 (4 - 2) (List.rang
 example : AlgoL.phi 1 [true, true] 0 = 1 / 6 := by
   rw [accept_history_law 1 (by norm_num)]; norm_num [AlgoL.histProb]
 end Examples
+
+end Ixai.C08
+
+/-! ### the analytic bridge (Proofs/AnalyticBridge.lean): the two real-analysis inputs of layer L2 are theorems of Mathlib's
+    measure theory, not assumptions -/
+namespace Ixai.C08
+open MeasureTheory Set
+
+/-- the moments of V = U^(1/k), U uniform on (0,1), are the `momV` the acceptance-law recursion starts from -/
+theorem moments_of_weight_factor (k m : ℕ) (hk : 1 ≤ k) :
+    ∫ u in (0:ℝ)..1, (u ^ ((1:ℝ)/k)) ^ m = ((AlgoL.momV k m : ℚ) : ℝ) := by
+  rw [AnalyticBridge.moment_rpow k m hk]
+  simp [AlgoL.momV]
+
+/-- the skip `floor(log U / log(1-w))` is geometric: it equals s with probability (1-w)^s · w … -/
+theorem skip_is_geometric (w : ℝ) (hw0 : 0 < w) (hw1 : w < 1) (s : ℕ) :
+    volume {u : ℝ | 0 < u ∧ u < 1 ∧ ⌊Real.log u / Real.log (1 - w)⌋ = (s : ℤ)} = ENNReal.ofReal ((1 - w) ^ s * w) :=
+  AnalyticBridge.skip_measure w hw0 hw1 s
+
+/-- … i.e. a run of s rejections (probability 1-w each) followed by an acceptance (probability w) -/
+theorem skip_is_bernoulli_run (w : ℝ) (hw0 : 0 < w) (hw1 : w < 1) (s : ℕ) :
+    volume {u : ℝ | 0 < u ∧ u < 1 ∧ ((s + 1 : ℕ) : ℤ) ≤ ⌊Real.log u / Real.log (1 - w)⌋} =
+      ENNReal.ofReal (1 - w) * volume {u : ℝ | 0 < u ∧ u < 1 ∧ (s : ℤ) ≤ ⌊Real.log u / Real.log (1 - w)⌋} :=
+  AnalyticBridge.skip_tail_succ w hw0 hw1 s
+
+/-- P(U ≤ p) = p (used by the geometric reservoir, C09) -/
+theorem uniform_cdf (p : ℝ) (hp0 : 0 ≤ p) (hp1 : p ≤ 1) : volume (Ioc (0:ℝ) p ∩ Ioo 0 1) = ENNReal.ofReal p :=
+  AnalyticBridge.uniform_cdf p hp0 hp1
 
 end Ixai.C08
